@@ -2,7 +2,7 @@
 EXTENDS AdminPolicy, Json
 CONSTANT Space
 VARIABLE c
-Cases == IF Space = "ip" THEN IpCases ELSE AuthCases
+Cases == IF Space = "ip" THEN IpCases \cup OrderCases ELSE AuthCases
 Init == c \in Cases
 Next == UNCHANGED c
 SetToSeq(S) == LET RECURSIVE F(_) F(T) == IF T = {} THEN <<>> ELSE LET x == CHOOSE y \in T : TRUE IN <<x>> \o F(T \ {x}) IN F(S)
